@@ -316,8 +316,12 @@ def extract_cause(plat):
         raise ExtractError("has_process arm for this platform not found")
     body = chosen[0]
     hp = {}
+    mm = re.fullmatch(r"\s*(?:use\s+ICause::\*;\s*)?matches!\(\s*self\s*,\s*((?:\w+\s*\|\s*)*\w+)\s*,?\s*\)\s*", body)
     if re.fullmatch(r"\s*true\s*", body):
         hp = {n: True for n, _ in icause}
+    elif mm:
+        listed = [x.strip() for x in mm.group(1).split("|")]
+        hp = {n: (n in listed) for n, _ in icause}
     else:
         for pat, val in re.findall(r"((?:\w+\s*\|\s*)*\w+)\s*=>\s*(true|false)", body):
             for n in re.split(r"\s*\|\s*", pat.strip()):
@@ -603,18 +607,36 @@ def write_if_changed(path, text):
 ERRORS = {}
 
 
-def attempt(section, fn, fallback):
-    """run one translator section; on failure record the error and use a fallback that makes the
-    dependent proof obligations fail rather than silently keeping stale content"""
+LAST_GOOD_PATH = os.path.join(os.path.dirname(os.path.abspath(__file__)), "last_good.txt")
+LAST_GOOD = {}
+
+
+def load_last_good():
+    import ast
     try:
-        return fn()
+        LAST_GOOD.update(ast.literal_eval(open(LAST_GOOD_PATH).read()))
+    except (OSError, ValueError, SyntaxError):
+        pass
+
+
+def attempt(section, fn, fallback):
+    """run one translator section; on failure record the error (every property that depends on the
+    section then reports `no longer checks: translator ...`) and regenerate the section from what the
+    translator read the last time it understood the source, so that the model stays executable and the
+    search for a failing input can still compare it with the changed implementation"""
+    try:
+        v = fn()
+        LAST_GOOD[section] = v
+        return v
     except ExtractError as e:
         ERRORS[section] = str(e)
-        return fallback
+        v = LAST_GOOD.get(section)
+        return v if v is not None else fallback
 
 
 def main():
     os.makedirs(OUT, exist_ok=True)
+    load_last_good()
     plat = platform_consts()
     hdr = "-- GENERATED by /verif/extract/extract.py from /repo on every run. Do not edit.\n"
 
@@ -720,6 +742,8 @@ def main():
             f.write("%s %d %s#%d\n" % (st["file"], st["line"], st["fn"], st["ordinal"]))
     with open(os.path.join(os.path.dirname(SITES), "extract_errors.json"), "w") as f:
         json.dump(ERRORS, f, indent=1, sort_keys=True)
+    import pprint
+    write_if_changed(LAST_GOOD_PATH, pprint.pformat(LAST_GOOD, width=160) + "\n")
     print("extract: %s (%d platform consts, %d DETAILS rows, %d cause rows, %d atomic sites)%s" %
           ("ok" if not ERRORS else "PARTIAL", len(plat), len(rows), len(crows), len(sites),
            "".join("; %s: %s" % kv for kv in sorted(ERRORS.items()))))
